@@ -264,9 +264,9 @@ def run(ctx, col: Collector):
     # ---------------------------------------------------------------- C03-table
     def table():
         mod = f'{SQLD}.table'
-        cb = idx.func(mod, 'create_body')
+        from .common import select_filter, collect_filters, expanded
+        cb = expanded(ctx, mod, 'create_body', keep_extra=tuple(sorted(ANCHOR_HELPERS | {'_has_composite_pk'})))
         m = [a.arg for a in cb.node.args.args][0]
-        from .common import select_filter, collect_filters
         fs = [f for f in collect_filters(cb.node) if f['iter'] == f'{m}.columns' and 'render' in f['elt']]
         col.check(len(fs) == 1 and not fs[0]['conds'], 'C03-table', 'create_body:columns', 'every column is rendered once, in order',
                   f'create_body renders columns with {[(f["elt"][:40], f["conds"]) for f in fs]} (expected one unfiltered pass over {m}.columns)', node=cb.node, file=cb.file)
@@ -276,7 +276,7 @@ def run(ctx, col: Collector):
             'exactly the pk indexes are rendered inside the table' if st == 'ok' else
             (f'create_body selects indexes under {f["conds"]}; expected `for i in {m}.indexes if i.pk`' if st == 'bad' else f'create_body does not iterate {m}.indexes in a recognised form'),
             node=cb.node, file=cb.file)
-        cc = idx.func(mod, 'create_components')
+        cc = expanded(ctx, mod, 'create_components', keep_extra=tuple(sorted(ANCHOR_HELPERS | {'_has_composite_pk'})))
         m2 = [a.arg for a in cc.node.args.args][0]
         st, f = select_filter(cc.node, f'{m2}.indexes', [('not', ('truthy', 'VAR.pk'))], elt_is_var=False, elt_pred=lambda f: 'render' in f['elt'])
         (col.ok if st == 'ok' else col.bad if st == 'bad' else col.unk)(
